@@ -67,6 +67,18 @@ add("C03", "exploration",
     "property-based testing (rapid) + exhaustive small-space enumeration vs an exact-arithmetic definitional oracle; metamorphic representation changes",
     "DESIGN.md C03")
 
+
+add("C01", "exploration",
+    "Generated ordered pairs of valid geometries (all 7x7 type pairs, overlapping collection members, empties) on triangulated integer grids that coincide, are offset by half a cell or shifted, under an injective integer map. An exact rational arrangement of both operands gives, for every vertex, sub-edge and slab trapezoid, its membership in A and B; the expected result of each operation is the closed Boolean combination of those cells with its exact area, remainder length and isolated-point count. Every library result (Union, Intersection, Difference both orders, SymmetricDifference, argument orders swapped, UnaryUnion, Union(x,x), UnionMany) must be error-free, valid (oracle and Validate), contain exactly the expected face probes, have every expected remainder edge/point within tau, match the three measures and have the canonical shape. Because every operation is compared with the same exact point set, the Boolean-algebra laws hold as a consequence.",
+    "Trusted: exact kernel (internal/exact). Strict domain (exact clearance >= 1e-6 x magnitude) only; probes closer than tau = 1e-9 x magnitude to an arrangement edge are skipped and counted.",
+    "property-based testing (rapid) vs an exact-arithmetic arrangement oracle",
+    "DESIGN.md C01")
+add("C02", "exploration",
+    "Same pair generator with pairwise exactly-disjoint collection members. DE-9IM oracle: every cell of the exact arrangement is located in I/B/E of each operand by the OGC definitions and M[x][y] is the largest dimension of a cell located (x,y). Relate(a,b) must equal it, Relate(b,a) its transpose, the nine named predicates the documented pattern lists evaluated by an independent matcher (Crosses/Overlaps with dimensions that ignore empty members), plus Contains/Within, Covers/CoveredBy, Disjoint/Intersects, Equals(a,a) relations; RelateMatches against the independent matcher on random (also malformed) matrix/pattern strings. Evidence reports the number of distinct matrices seen.",
+    "Trusted: exact kernel. Strict domain only.",
+    "property-based testing (rapid) vs an exact-arithmetic DE-9IM oracle",
+    "DESIGN.md C02")
+
 NOT_YET = "check not built yet in this session (build in progress; see DESIGN.md section 7)"
 manifest = dict(
     version=1,
